@@ -441,10 +441,12 @@ class _IncomingPacketHandler(Thread):
 
     def run(self):
         while True:
-            if self.cf.link is None:
+            # The link can be closed by another thread at any time
+            link = self.cf.link
+            if link is None:
                 time.sleep(1)
                 continue
-            pk = self.cf.link.receive_packet(1)
+            pk = link.receive_packet(1)
 
             if pk is None:
                 continue
